@@ -106,6 +106,11 @@ def extract():
     t = read(rel)
     expect("c07.mulint.sign_extend", rel, t, r"let new_len = x\.len\(\) \+ y\.len\(\);\s*let mut y = y\.clone\(\);\s*y\.resize\(new_len, y\[y\.len\(\) - 1\]\.clone\(\)\);")
     expect("c07.mulint.row", rel, t, r"x\.iter\(\)\.take\(new_len - i\)\.enumerate\(\)")
+    # the carry-append guard the invariant of `mul_value` depends on (accumulator has min(n+i+1, L) bits after bit i)
+    expect("c07.mulint.carry_guard", rel, t,
+           r"if result\.len\(\) < new_len \{\s*(?://[^\n]*\n\s*)*result\.push\(carry\);\s*\}\s*\}\s*\}\s*Ok\(result\)")
+    expect("c07.mulint.first_row", rel, t, r"if i == 0 \{\s*result = t;\s*\} else \{")
+    expect("c07.mulint.loop", rel, t, r"for \(i, yb\) in y\.into_iter\(\)\.enumerate\(\) \{")
     expect("c07.mulint.accumulate", rel, t,
            r"let add_y = BitDecomposed::new\(result\.clone\(\)\.into_iter\(\)\.skip\(i\)\);.*?&t,\s*&add_y,.*?result = BitDecomposed::new\(result\.into_iter\(\)\.take\(i\)\.chain\(add_result\.into_iter\(\)\)\);\s*if result\.len\(\) < new_len \{")
 
